@@ -51,12 +51,13 @@ def textPrinted (missing : Bool) (showRules : List Str) (inst : List (Comp × Op
 
 end IV.Rules
 
-/-! ### evaluation on a thread pool: an observer call may fail
+/-! ### evaluation on a thread pool: the pre-fix behaviour (regression model, fix c9df167)
 
-`Broker.fire_observers` logs and swallows an exception raised by an observer.  When components are evaluated on
-several threads (`run_incremental` with `parallel=True`), `Evaluator.observer` can raise `RuntimeError: dictionary
-changed size during iteration` from its walk over `broker.instances`; `ok = false` stands for such a call: the value
-is in the broker, the observer has not dealt with it. -/
+`Broker.fire_observers` logs and swallows an exception raised by an observer.  Before c9df167, when components were
+evaluated on several threads (`run_incremental` with `parallel=True`), `Evaluator.observer` could raise `RuntimeError:
+dictionary changed size during iteration` from its walk over `broker.instances`; `ok = false` stands for such a call:
+the value is in the broker, the observer has not dealt with it — a failing observer call loses the outcome.  The code
+now walks a snapshot (`list(self.broker.instances)`) and cannot fail there, i.e. every call has `ok = true`. -/
 
 namespace IV.Rules
 
